@@ -1,4 +1,4 @@
-/* further commands of the harness (edits, queries, files); see qsx_harness.c for the protocol */
+/* further commands of the harness (queries, files, scanner); see qsx_harness.c for the protocol */
 #include <stdio.h>
 #include <stdlib.h>
 #include <string.h>
@@ -6,8 +6,136 @@
 #include "logging-private.h"
 #include "qsx_harness.h"
 
+static char *unhex (const char *h)
+{
+	size_t n = strlen (h) / 2, i;
+	char *s = (char *) malloc (n + 1);
+	if (!strcmp (h, "-")) { s[0] = 0; return s; }
+	for (i = 0; i < n; i++)
+	{
+		unsigned v;
+		sscanf (h + 2 * i, "%2x", &v);
+		s[i] = (char) v;
+	}
+	s[n] = 0;
+	return s;
+}
+
+/* the whole problem through the query API, as one `lp ...` line (same syntax as the input),
+ * followed by names, integer flags and counts */
+void dump_api (mpq_QSdata * p)
+{
+	int nc = mpq_QSget_colcount (p), nr = mpq_QSget_rowcount (p), nz = mpq_QSget_nzcount (p);
+	int sense = 0, i, k, rv = 0;
+	mpq_t *obj = mpq_EGlpNumAllocArray (nc + 1), *lo = mpq_EGlpNumAllocArray (nc + 1), *up = mpq_EGlpNumAllocArray (nc + 1);
+	int *rowcnt = 0, *rowbeg = 0, *rowind = 0;
+	mpq_t *rowval = 0, *rhs = 0, *range = 0;
+	char *senses = 0, **rnames = 0;
+	int *intflags = (int *) calloc (nc + 1, sizeof (int));
+	rv |= mpq_QSget_objsense (p, &sense);
+	rv |= mpq_QSget_obj (p, obj);
+	rv |= mpq_QSget_bounds (p, lo, up);
+	rv |= mpq_QSget_ranged_rows (p, &rowcnt, &rowbeg, &rowind, &rowval, &rhs, &senses, &range, &rnames);
+	if (rv) { printf ("api err\n"); goto CLEANUP; }
+	printf ("api lp %s %d %d", sense == QS_MIN ? "min" : "max", nc, nr);
+	for (i = 0; i < nc; i++)
+	{
+		putchar (' '); put_q (obj[i]); putchar (' '); put_q (lo[i]); putchar (' '); put_q (up[i]);
+	}
+	for (i = 0; i < nr; i++)
+	{
+		printf (" %c ", senses[i]);
+		put_q (rhs[i]);
+		putchar (' ');
+		put_q (range[i]);
+		printf (" %d", rowcnt[i]);
+		for (k = 0; k < rowcnt[i]; k++)
+		{
+			printf (" %d ", rowind[rowbeg[i] + k]);
+			put_q (rowval[rowbeg[i] + k]);
+		}
+	}
+	putchar ('\n');
+	printf ("nzcount %d\n", nz);
+	{
+		char **cn = (char **) calloc (nc + 1, sizeof (char *));
+		if (!mpq_QSget_colnames (p, cn))
+		{
+			printf ("colnames %d", nc);
+			for (i = 0; i < nc; i++) { putchar (' '); put_hex (cn[i]); mpq_QSfree (cn[i]); }
+			putchar ('\n');
+		}
+		else printf ("colnames err\n");
+		free (cn);
+	}
+	printf ("rownames %d", nr);
+	for (i = 0; i < nr; i++) { putchar (' '); put_hex (rnames ? rnames[i] : 0); }
+	putchar ('\n');
+	if (!mpq_QSget_intflags (p, intflags))
+	{
+		printf ("intflags %d", nc);
+		for (i = 0; i < nc; i++) printf (" %d", intflags[i]);
+		putchar ('\n');
+	}
+	{
+		char *on = mpq_QSget_objname (p), *pn = mpq_QSget_probname (p);
+		printf ("objname "); put_hex (on); printf ("\nprobname "); put_hex (pn); putchar ('\n');
+		mpq_QSfree (on); mpq_QSfree (pn);
+	}
+CLEANUP:
+	mpq_EGlpNumFreeArray (obj); mpq_EGlpNumFreeArray (lo); mpq_EGlpNumFreeArray (up);
+	mpq_QSfree (rowcnt); mpq_QSfree (rowbeg); mpq_QSfree (rowind);
+	mpq_EGlpNumFreeArray (rowval); mpq_EGlpNumFreeArray (rhs); mpq_EGlpNumFreeArray (range);
+	mpq_QSfree (senses);
+	if (rnames) { for (i = 0; i < nr; i++) mpq_QSfree (rnames[i]); mpq_QSfree (rnames); }
+	free (intflags);
+}
+
+static void cmd_scan (void)
+{
+	char *s = unhex (tok ());
+	mpq_t q;
+	int n;
+	mpq_init (q);
+	mpq_set_si (q, 424242, 1);
+	n = mpq_EGlpNumReadStrXc (q, s);
+	printf ("n %d\nval ", n);
+	if (n) put_q (q); else printf ("none");
+	putchar ('\n');
+	mpq_clear (q);
+	free (s);
+}
+
+static void cmd_read (void)
+{
+	int k = tok_int ();
+	const char *ft = tok ();
+	char *path = unhex (tok ());
+	mpq_QSdata *p;
+	if (k < 0 || k >= NSLOT) { printf ("bad-op slot\n"); free (path); return; }
+	if (SLOT[k]) { mpq_QSfree_prob (SLOT[k]); SLOT[k] = 0; }
+	p = mpq_QSread_prob (path, ft);
+	SLOT[k] = p;
+	printf ("read %s\n", p ? "ok" : "fail");
+	free (path);
+}
+
+static void cmd_write (void)
+{
+	mpq_QSdata *p = slot ();
+	const char *ft = tok ();
+	char *path = unhex (tok ());
+	int rv = mpq_QSwrite_prob (p, path, ft);
+	printf ("write %d\n", rv ? 1 : 0);
+	free (path);
+}
+
 int qsx_more_commands (const char *c)
 {
-	(void) c;
-	return 0;
+	if (!strcmp (c, "dumpapi")) dump_api (slot ());
+	else if (!strcmp (c, "scan")) cmd_scan ();
+	else if (!strcmp (c, "read")) cmd_read ();
+	else if (!strcmp (c, "write")) cmd_write ();
+	else return 0;
+	return 1;
 }
